@@ -113,7 +113,8 @@ Definition from_array (vals : list Z) (c : cmp) (v : Z) : list Z := positions (f
 
 (* selection strings, after tokenisation: El | El.i | El.i-j | El.i.j... | label *)
 Inductive site := SOne (i : Z) | SRange (i j : Z).
-Inductive item := IEl (e : Z) | IIdx (e : Z) (s : list site) | ILabel (e : Z) (lab : Z).
+(* IBare: a comma item made only of site numbers ('Si.1-3,5'); it continues the indexed item just before it *)
+Inductive item := IEl (e : Z) | IIdx (e : Z) (s : list site) | ILabel (e : Z) (lab : Z) | IBare (s : list site).
 Definition expand_site (s : site) : list Z :=
   match s with SOne i => [i] | SRange i j => map (fun k => i + Z.of_nat k) (seq 0 (Z.to_nat (j - i + 1))) end.
 Fixpoint group_set (e : Z) (v : list Z) (g : list (Z * list Z)) : list (Z * list Z) :=
@@ -123,27 +124,39 @@ Fixpoint group_ext (e : Z) (v : list Z) (g : list (Z * list Z)) : list (Z * list
 Fixpoint first_occ (l : list Z) (seen : list Z) : list Z :=
   match l with [] => [] | x :: t => if memz x seen then first_occ t seen else x :: first_occ t (x :: seen) end.
 
-Fixpoint from_items (syms labels : list Z) (items : list item) (g : list (Z * list Z)) : outcome (list Z) :=
+(* 1-based site numbers of one element -> atom indices (numpy negative indexing after the -1); None = out of range *)
+Definition pick_sites (eidx : list Z) (want : list Z) : option (list Z) :=
+  sequence (map (fun i => let j := i - 1 in
+                          let j' := if j <? 0 then j + Z.of_nat (length eidx) else j in
+                          nthZ eidx j') want).
+
+(* prev: element of the indexed item immediately before (None otherwise).  Refused = the string is rejected with an exception
+   (ValueError, or IndexError for a site number beyond the element count / a bare item with nothing to continue). *)
+Fixpoint from_items (syms labels : list Z) (items : list item) (prev : option Z) (g : list (Z * list Z)) : outcome (list Z) :=
   match items with
   | [] => Ok (first_occ (flat_map snd g) [])
   | it :: rest =>
-    let e := match it with IEl e | IIdx e _ | ILabel e _ => e end in
-    let eidx := from_element syms e in
-    if negb (memz e syms) then Refused
-    else match it with
-    | IEl _ => from_items syms labels rest (group_set e eidx g)
-    | IIdx _ ss =>
-        let want := flat_map expand_site ss in
-        if memz 0 want then Refused
-        else match sequence (map (fun i => let j := i - 1 in
-                                            let j' := if j <? 0 then j + Z.of_nat (length eidx) else j in   (* numpy negative indexing *)
-                                            nthZ eidx j') want) with
-             | Some v => from_items syms labels rest (group_ext e v g)
-             | None => Crashed
-             end
-    | ILabel _ lab =>
-        let li := positions (Z.eqb lab) 0 labels in
-        match li with [] => Refused | _ => from_items syms labels rest (group_ext e li g) end
+    let it' := match it, prev with IBare ss, Some e => Some (IIdx e ss) | IBare _, None => None | x, _ => Some x end in
+    match it' with
+    | None => Refused
+    | Some it =>
+      let e := match it with IEl e | IIdx e _ | ILabel e _ => e | IBare _ => 0 end in
+      let eidx := from_element syms e in
+      if negb (memz e syms) then Refused
+      else match it with
+      | IEl _ => from_items syms labels rest None (group_set e eidx g)
+      | IIdx _ ss =>
+          let want := flat_map expand_site ss in
+          if memz 0 want then Refused
+          else match pick_sites eidx want with
+               | Some v => from_items syms labels rest (Some e) (group_ext e v g)
+               | None => Refused
+               end
+      | ILabel _ lab =>
+          let li := positions (Z.eqb lab) 0 labels in
+          match li with [] => Refused | _ => from_items syms labels rest None (group_ext e li g) end
+      | IBare _ => Refused
+      end
     end
   end.
 
